@@ -17,9 +17,9 @@ MUTABLE_CTORS = ('list', 'dict', 'set', 'collections.deque', 'xtuml.OrderedSet',
 
 
 def run(ctx):
-    escape(ctx)
-    fresh(ctx)
-    stmt_ro(ctx)
+    ctx.guard(escape, ctx)
+    ctx.guard(fresh, ctx)
+    ctx.guard(stmt_ro, ctx)
     ctx.assume('user code that mutates Association.source_keys / target_keys in place is outside the listed changes')
     return ('Escape classification of every statement-field argument in the populate_* passes (copied vs stored by reference, '
             'one call level deep), repository-wide scan for in-place mutators of reference-stored fields, freshness of every '
@@ -176,7 +176,7 @@ def escape(ctx):
     r.check(pm.contains('_A = (name, type_name)', aa) and pm.contains('self.attributes.append(_A)', aa), 'attributes are stored as new immutable pairs', aa,
             construct='xtuml.meta:MetaClass.append_attribute', key='pair', msg='append_attribute does not append a new (name, type) tuple')
     ui = repo.func('xtuml.meta:MetaModel.define_unique_identifier')
-    r.check(pm.contains('_M.indices[name] = tuple(named_attributes)', ui), 'identifier attribute lists are stored as tuples', ui,
+    r.check(any(pm.match('_M.indices[name] = tuple(_X)', n) is not None and 'named_attributes' in src(n.value) for n in ast.walk(ui) if isinstance(n, ast.Assign)), 'identifier attribute lists are stored as tuples', ui,
             construct='xtuml.meta:MetaModel.define_unique_identifier', key='tuple', msg='define_unique_identifier does not store tuple(named_attributes)')
 
 
